@@ -402,6 +402,65 @@ fn build_xorb(ctx: &str, chunks: &[Vec<u8>], t: &Truth, cashash: &MerkleHash, sc
     (cas, bytes)
 }
 
+/// CasObject::serialize into a writer whose position is NOT 0: a xorb after N leading bytes, and several xorbs back to back in one
+/// Cursor.  The bytes serialize reports for a xorb, taken from its own first byte, must be a complete xorb: returned footer ==
+/// what the chunk section dictates (offsets relative to the xorb's start), deserialize, get_all_bytes, chunk ranges, both validators.
+fn check_nonzero_start(rt: &tokio::runtime::Runtime, lists: &[(&str, Vec<Vec<u8>>)]) {
+    for (sname, scheme) in SCHEMES {
+        for lead in [1usize, 13, 4096] {
+            let mut cur = Cursor::new(vec![0xA5u8; lead]);
+            cur.set_position(lead as u64);
+            let mut placed: Vec<(usize, usize, usize)> = vec![]; // (list index, start, length)
+            for (k, (_, chunks)) in lists.iter().enumerate() {
+                let t = truth_of(chunks);
+                let data = chunks.concat();
+                let cb: Vec<(MerkleHash, u32)> = t.list.iter().zip(&t.unpacked).map(|((h, _), o)| (*h, *o)).collect();
+                let start = cur.position() as usize;
+                let ctx = format!("CasObject::serialize of chunk list '{}' ({}) with scheme {sname} into a Cursor positioned at byte {start} ({lead} leading bytes, {k} xorbs written before it)", lists[k].0, describe(chunks));
+                let (cas, n) = guarded(&ctx, || CasObject::serialize(&mut cur, &t.root, &data, &cb, scheme)).unwrap_or_else(|e| witness(format!("{ctx}: fails: {e}")));
+                if cur.position() as usize != start + n || cur.get_ref().len() != start + n {
+                    witness(format!("{ctx}: reports {n} bytes written, the writer moved from {start} to {} (buffer length {})", cur.position(), cur.get_ref().len()));
+                }
+                placed.push((k, start, n));
+                let own = cur.get_ref()[start..start + n].to_vec();
+                let w = walk(&own).unwrap_or_else(|e| witness(format!("{ctx}: the {n} bytes written for this xorb, read from its own first byte, have an undecodable chunk section: {e}")));
+                if w.chunks != *chunks {
+                    witness(format!("{ctx}: the chunk section of the written xorb does not decode to the input chunks"));
+                }
+                if let Some(m) = info_mismatch(&cas, &t, &w.boundaries, &t.root) {
+                    witness(format!("{ctx}: the returned footer does not describe the xorb relative to its own first byte: {m}"));
+                }
+                match guarded(&ctx, || CasObject::deserialize(&mut Cursor::new(&own[..]))) {
+                    Ok(parsed) if parsed == cas => {
+                        let r = &mut Cursor::new(&own[..]);
+                        match guarded(&ctx, || parsed.get_all_bytes(r)) {
+                            Ok(d) if d == data => {},
+                            other => witness(format!("{ctx}: get_all_bytes on the xorb's own bytes gives {:?}, the input has {} bytes", other.map(|d| d.len()).map_err(|e| e.to_string()), data.len())),
+                        }
+                        let nn = chunks.len();
+                        for (i, j) in [(0usize, 1usize), (0, nn), (nn - 1, nn), (nn / 2, nn)] {
+                            if i >= j { continue; }
+                            let off = |x: usize| if x == 0 { 0usize } else { t.unpacked[x - 1] as usize };
+                            match guarded(&ctx, || parsed.get_bytes_by_chunk_range(r, i as u32, j as u32)) {
+                                Ok(d) if d == data[off(i)..off(j)] => {},
+                                other => witness(format!("{ctx}: get_bytes_by_chunk_range({i}, {j}) on the xorb's own bytes gives {:?}, the input range has {} bytes", other.map(|d| d.len()).map_err(|e| e.to_string()), off(j) - off(i))),
+                            }
+                        }
+                    },
+                    Ok(_) => witness(format!("{ctx}: CasObject::deserialize of the xorb's own bytes returns a footer different from the one serialize returned")),
+                    Err(e) => witness(format!("{ctx}: CasObject::deserialize of the xorb's own bytes fails: {e}")),
+                }
+                validate_both(rt, &format!("{ctx}; the xorb's own bytes"), &own, &t.root, Expect::Accept, Expect::Accept);
+            }
+            // and every xorb still reads back after the later ones were appended
+            for (k, start, n) in placed {
+                let t = truth_of(&lists[k].1);
+                validate_both(rt, &format!("xorb #{k} ('{}', scheme {sname}) of {} written back to back into one Cursor after {lead} leading bytes, taken as bytes [{start}, {})", lists[k].0, lists.len(), start + n), &cur.get_ref()[start..start + n], &t.root, Expect::Accept, Expect::Accept);
+            }
+        }
+    }
+}
+
 fn info_mismatch(cas: &CasObject, t: &Truth, boundaries: &[u32], h: &MerkleHash) -> Option<String> {
     let i = &cas.info;
     if i.cashash != *h {
@@ -912,6 +971,15 @@ fn main() {
     let residues: Vec<Vec<u8>> = (1..=11usize).chain(20_000..20_004).map(|n| floats(&mut rng, n)).collect();
     lists.push(("float data of every length residue mod 4".into(), residues, false));
 
+    {
+        // writers that do not start at position 0: three different xorbs back to back after 1 / 13 / 4096 leading bytes
+        let pick: Vec<(&str, Vec<Vec<u8>>)> = vec![
+            ("small mixed", lists[0].1.clone()),
+            ("single 1-byte chunk", vec![vec![7u8]]),
+            ("floats and text", vec![floats(&mut rng, 2001), text(300), floats(&mut rng, 12), random(&mut rng, 64)]),
+        ];
+        check_nonzero_start(&rt, &pick);
+    }
     for (name, chunks, exhaustive) in &lists {
         for (sname, scheme) in SCHEMES {
             check_codec(&rt, name, chunks, sname, scheme);
